@@ -1,9 +1,10 @@
 CONSTANTS
-  MaxPts = 8
+  MaxPts = 9
   MaxOff = 3
   MaxCalls = 14
-  Lattice = "L9"
+  Lattice = "L5"
   Protos = {"seg", "pt"}
+  SampleMod = 37
 INIT Init
 NEXT Next
 CONSTRAINT Emit
